@@ -184,8 +184,12 @@ func DecodeAny(tc TypeCodec, to *TypedObj) (interface{}, error) {
 			return nil, errors.ErrIllegalArgument
 		}
 	case TypeDict:
+		dict, _ := to.Object.(*TypedDict)
+		if dict == nil {
+			return nil, errors.ErrIllegalArgument
+		}
 		m := make(map[string]interface{})
-		for k, nto := range to.Object.(*TypedDict).Map {
+		for k, nto := range dict.Map {
 			var err error
 			m[k], err = DecodeAny(tc, nto)
 			if err != nil {
